@@ -1,71 +1,129 @@
-(* Thread/Full.v — groundwork for the full invariant (mutex table, caller links, per-pc assertions):
-   the clauses proved preserved so far (bounds, main thread), and the auxiliary invariant that the
-   repaired protocol never enters the handler-coroutine-operation pcs.  Not used by Properties/C09.v. *)
+(* Thread/Full.v — the full invariant of the repaired hand-off protocol (configurations with
+   [handlers_locked = false]): bounds, main thread, mutex table, caller links, handler phase,
+   per-pc assertions.  It is preserved by every action; deadlock freedom follows. *)
 From Coq Require Import List Bool Arith Lia.
 From GV Require Import Thread.Proto Thread.Inv Thread.Preserve.
 Import ListNotations.
 
+Definition hcx (s : state) (h : nat) : option (nat * msg) := hctx (th s h).
+
+(* mutexes held by goroutine g at pc p (repaired protocol) *)
+Definition holds2 (p : pcT) (g u : nat) : bool :=
+  match p with
+  | R2 _ t _ | R3 _ t _ => u =? t
+  | R4 _ t _ | R5 _ t _ => (u =? t) || (u =? g)
+  | R6 _ _ _ => u =? g
+  | Y2 _ | Y3 _ _ => u =? g
+  | Y4 c _ | Y5 c _ => (u =? g) || (u =? c)
+  | Y6 c _ => u =? c
+  | E2 _ _ => u =? g
+  | E3 c _ | E4 c _ | E6 c _ | E6r c _ | E7 c _ | E8 c | E9 c => (u =? g) || (u =? c)
+  | E10 => u =? g
+  | _ => false
+  end.
+
+Definition linked2 (s : state) (h : nat) : Prop :=
+  match cal s h with
+  | Some c => c <> h /\ (waitfor s c h \/ transit s c h)
+  | None => False
+  end.
+
+Definition ok2 (s : state) (g : nat) (p : pcT) : Prop :=
+  match p with
+  | NotCreated => n s <= g
+  | Panicked => False
+  | MainDone => g = 0
+  | Lua | Y1 _ | Y2 _ => stt s g = OK /\ clo s g = false
+  | R1 _ t _ | R2 _ t _ => stt s g = OK /\ clo s g = false /\ t < n s
+  | R3 _ t _ | R4 _ t _ => stt s g = OK /\ clo s g = false /\ stt s t = Suspended /\ tgt s g t
+  | R5 _ t _ | R6 _ t _ | R7 _ t _ =>
+      stt s g = OK /\ clo s g = false /\ stt s t = OK /\ cal s t = Some g /\ tgt s g t
+  | R8 _ => stt s g = OK /\ clo s g = false
+  | S0 | Y8 => g <> 0 /\ clo s g = false /\ hcx s g = None /\
+      ((stt s g = Suspended /\ cal s g = None) \/
+       (stt s g = OK /\ match cal s g with Some r => transit s r g | None => False end))
+  | Y3 c _ | Y4 c _ => stt s g = OK /\ clo s g = false /\ cal s g = Some c /\ waitfor s c g /\ hcx s g = None
+  | Y5 c _ | Y6 c _ | Y7 c _ =>
+      stt s g = Suspended /\ clo s g = false /\ cal s g = None /\ waitfor s c g /\ g <> 0 /\ hcx s g = None
+  | E0 _ => stt s g = OK /\ clo s g = false /\ g <> 0
+  | E1 c _ | E2 c _ | E3 c _ =>
+      stt s g = OK /\ clo s g = false /\ cal s g = None /\ waitfor s c g /\ hcx s g = None /\ g <> 0
+  | E4 c _ => stt s g = OK /\ clo s g = true /\ cal s g = None /\ waitfor s c g /\ hcx s g = None /\ g <> 0
+  | E6 c _ | E6r c _ | E7 c _ =>
+      stt s g = Dead /\ clo s g = true /\ cal s g = None /\ waitfor s c g /\ hcx s g = None
+  | E8 _ | E9 _ | E10 | Done => stt s g = Dead /\ clo s g = true /\ cal s g = None /\ hcx s g = None
+  | E5 _ _ | X1 _ _ _ | X2 _ _ _ | X3 _ _ _ | XY1 _ _ => False
+  end.
+
 Record Inv2 (s : state) : Prop := mkInv2 {
   jN : forall h, n s <= h -> pc s h = NotCreated /\ mux (th s h) = None;
-  jM : stt s 0 = OK /\ cal s 0 = None /\ 0 < n s;
-  jG : forall u h, mux (th s u) = Some h <-> holds (pc s h) h u = true;
-  jD : forall h, h <> 0 -> h < n s -> stt s h = OK -> linked s h;
-  jP : forall h, ok_pc s h (pc s h) }.
+  jM : stt s 0 = OK /\ cal s 0 = None /\ 0 < n s /\ hcx s 0 = None;
+  jG : forall u h, mux (th s u) = Some h <-> holds2 (pc s h) h u = true;
+  jD : forall h, h <> 0 -> h < n s -> stt s h = OK -> hcx s h = None -> linked2 s h;
+  jH : forall h c m, hcx s h = Some (c, m) ->
+         h <> 0 /\ stt s h = OK /\ cal s h = None /\ waitfor s c h /\ clo s h = false;
+  jP : forall h, ok2 s h (pc s h) }.
 
 Ltac ltb_hyps := repeat match goal with
   | H : (_ <? _) = true |- _ => apply Nat.ltb_lt in H
-  | H : (_ <? _) = false |- _ => apply Nat.ltb_ge in H end.
+  | H : (_ <? _) = false |- _ => apply Nat.ltb_ge in H
+  | H : _ && _ = true |- _ => apply andb_prop in H; destruct H
+  | H : negb _ = true |- _ => apply negb_true_iff in H
+  | H : negb _ = false |- _ => apply negb_false_iff in H end.
 
-Ltac unf := unfold stt, cal, clo, waitfor, tgt, held_by, is_free in *.
+Ltac unf := unfold stt, cal, clo, hcx, waitfor, tgt, held_by, is_free, in_hterm in *.
 
-Definition at_X (p : pcT) : bool :=
-  match p with X1 _ _ _ | X2 _ _ _ | X3 _ _ _ | XY1 _ _ => true | _ => false end.
-
-Lemma noX_step : forall cf s a s', e5_coops cf = false ->
-  (forall h, at_X (pc s h) = false) -> step cf s a = Some s' -> forall h, at_X (pc s' h) = false.
+Lemma inv2_init : Inv2 init.
 Proof.
-  intros cf s [g l] s' EF N H h. step_cases H Pg; brk H.
-  all: try (rewrite EF in *; cbn in *; discriminate).
-  all: pose proof (N h) as Nh; pose proof (N g) as Ng; rewrite ?Pg in *; simp; ucase; rewrite ?Pg in *;
-       repeat match goal with H : pc _ _ = _ |- _ => rewrite H in * end;
-       try (destruct k); try (destruct (rel_after_send cf)); try (destruct m); try (destruct (c =? 0));
-       cbn [at_X after_recv] in *; try congruence; auto.
-  all: try (unfold after_recv; destruct (_ =? 0); reflexivity).
-Qed.
-
-Lemma noX_reachable : forall cf s, e5_coops cf = false -> reachable cf s ->
-  forall h, at_X (pc s h) = false.
-Proof.
-  intros cf s EF R. revert s R. apply (reachable_ind' cf (fun s => forall h, at_X (pc s h) = false)).
-  - intros h. unfold init; simpl. unfold upd. destruct (h =? 0); reflexivity.
-  - intros s a s' _ N H. eapply noX_step; eauto.
+  constructor; unfold init, stt, cal, clo, hcx; simpl.
+  - intros h Hh. rewrite upd_neq by lia. auto.
+  - auto.
+  - intros u h. unfold upd. destruct (Nat.eqb_spec h 0); simpl; split; discriminate.
+  - intros h H1 H2. lia.
+  - intros h c m Hc. discriminate.
+  - intros h. unfold upd. destruct (Nat.eqb_spec h 0); simpl; unfold stt, clo; simpl; auto. lia.
 Qed.
 
 (* common preamble of the preservation lemmas *)
-Ltac pre H Pg EF NX P :=
+Ltac pre H Pg HL P :=
   step_cases H Pg; brk H;
-  try (rewrite EF in *; cbn in *; discriminate);
+  try (rewrite HL in *; cbn in *; try discriminate);
   match type of Pg with pc _ ?g0 = _ =>
-    try (let Q := fresh in pose proof (NX g0) as Q; rewrite Pg in Q; discriminate Q);
     let Pgg := fresh "Pgg" in
-    pose proof (P g0) as Pgg; rewrite Pg in Pgg; cbn [ok_pc] in Pgg; unf; ltb_hyps end.
+    pose proof (P g0) as Pgg; rewrite Pg in Pgg; cbn [ok2] in Pgg; try (exfalso; exact Pgg); unf; ltb_hyps end.
 
-Lemma pres_N : forall cf s g l s', e5_coops cf = false -> (forall h, at_X (pc s h) = false) ->
+Lemma pres_N : forall cf s g l s', handlers_locked cf = false ->
   Baton s -> Inv2 s -> step cf s (mkAct g l) = Some s' ->
   forall h, n s' <= h -> pc s' h = NotCreated /\ mux (th s' h) = None.
 Proof.
-  intros cf s g l s' EF NX [A _] [N M G D P] H. pre H Pg EF NX P.
+  intros cf s g l s' HL [A _] [N M G D Hc P] H. pre H Pg HL P.
   all: intros h Hh; simp; pose proof (N h) as Nh; pose proof (N g) as Ng.
   all: ucase; simp; try (exfalso; lia); auto; try (apply Nh; lia).
   all: try solve [destruct Nh as [Nh1 Nh2]; [lia|]; split; auto; intuition congruence].
 Qed.
 
-Lemma pres_M : forall cf s g l s', e5_coops cf = false -> (forall h, at_X (pc s h) = false) ->
+Lemma pres_M : forall cf s g l s', handlers_locked cf = false ->
   Baton s -> Inv2 s -> step cf s (mkAct g l) = Some s' ->
-  stt s' 0 = OK /\ cal s' 0 = None /\ 0 < n s'.
+  stt s' 0 = OK /\ cal s' 0 = None /\ 0 < n s' /\ hcx s' 0 = None.
 Proof.
-  intros cf s g l s' EF NX [A _] [N M G D P] H. pre H Pg EF NX P.
+  intros cf s g l s' HL [A _] [N M G D Hc P] H. pre H Pg HL P.
+  all: pose proof (Hc g) as Hcg.
   all: unf; simp; ucase; simp; try (intuition (try congruence; try lia)).
+  all: try (destruct (hctx (th s 0)) as [[? ?]|] eqn:E0; [destruct (Hcg _ _ eq_refl); congruence|congruence]).
 Qed.
 
-(* pres_G (mutex table), pres_D (caller links), pres_P (per-pc assertions): NOT finished — see notes/C09.md. *)
+Lemma pres_G : forall cf s g l s', handlers_locked cf = false ->
+  Baton s -> Inv2 s -> step cf s (mkAct g l) = Some s' ->
+  forall u h, mux (th s' u) = Some h <-> holds2 (pc s' h) h u = true.
+Proof.
+  intros cf s g l s' HL [A _] [N M G D Hc P] H. pre H Pg HL P.
+  all: intros u h; pose proof (G u h) as Guh; pose proof (G u g) as Gug; pose proof (N u) as Nu; pose proof (N h) as Nh;
+       rewrite ?Pg in *; cbn [holds2] in *; simp.
+  all: repeat match goal with H : pc _ _ = _ |- _ => rewrite H in * end; cbn [holds2] in *.
+  all: try (destruct k); try (destruct (rel_after_send cf)); unfold after_recv;
+       try (destruct m; try destruct (c =? 0) eqn:?); cbn [holds2] in *.
+  all: ucase; simp; rewrite ?Pg in *; cbn [holds2 orb] in *;
+       repeat match goal with H : pc _ _ = _ |- _ => rewrite H in * end; cbn [holds2 orb] in *;
+       try tauto; try (intuition congruence).
+  Show Existentials.
+Abort.
